@@ -1180,7 +1180,7 @@ def run(ctx):
         if c["ks"]:
             cases.append(c)
     quick = ctx.quick
-    ngen = 700 if quick else 6000
+    ngen = 700 if quick else 4500
     nmax = 60 if quick else 120
     # exhaustive tiny part: every multiset of <= 5 points on {0,1,2} (line with multiplicities), all k
     tiny = []
@@ -1202,7 +1202,7 @@ def run(ctx):
         cases.append(gen_ultrawide(rng, 10))
     # scatter stream: small random point sets on coarse 1-D / 2-D integer lattices, every k, find_neighbors +
     # is_knn_b only (the geometry where a too small pruning radius of the cover tree shows, about 1 case in 8000)
-    for _ in range(8000 if quick else 60000):
+    for _ in range(8000 if quick else 50000):
         n = rng.randint(4, 9)
         r = rng.choice([8, 12, 20, 40])
         if rng.random() < 0.5:
@@ -1211,7 +1211,7 @@ def run(ctx):
             P = [[rng.randint(0, r // 2), rng.randint(0, r // 2)] for _ in range(n)]
         c = make_case(rng, "scatter", "D", n, None, l1(P), "scatter", full_ks=True, structural=False)
         cases.append(c)
-    for _ in range(1500 if quick else 6000):
+    for _ in range(1500 if quick else 5000):
         cases.append(gen_copy_radius(rng))
     if not quick:
         for n in (400, 1000, 2000):
@@ -1263,7 +1263,7 @@ def run(ctx):
         n += boundary_large(ctx, exe, c, stats)
     if not (stats.get("aborted_cases", 0) >= 3 and ctx.has_violation()):
         # (a library that hangs or crashes again and again already has its verdict: do not spend 30 timeouts here)
-        float_observation(ctx, exe, rng, stats, 30 if quick else 400)
+        float_observation(ctx, exe, rng, stats, 30 if quick else 200)
     for i in range(0, len(scatter), 2000):
         if ctx.has_violation():
             break
